@@ -42,7 +42,7 @@ Theorem C02_resmod_once_same_request_same_ctx : forall conns Ts n,
       ex (b + i) T = [] \/
       exists r c s L tl, ex (b + i) T = ReqMod r c s L :: tl /\
         count is_resmod tl = (if is_qhijack q then 0 else 1) /\
-        (forall r' sm c' s' st w L', In (ResMod r' sm c' s' st w L') tl -> sm = true /\ c' = c /\ s' = s) /\
+        (forall r' sm c' s' st w qw L', In (ResMod r' sm c' s' st w qw L') tl -> sm = true /\ c' = c /\ s' = s) /\
         (forall pre e post e', tl = pre ++ e :: post -> is_resmod e = true -> In e' post -> is_contact e' = false))
     0 0 conns Ts.
 Proof. exact m_resmod. Qed.
@@ -63,7 +63,7 @@ Theorem C02_session_shared_per_connection : forall conns Ts n,
     forall e, In e T ->
       match e with
       | ReqMod _ _ s _ => s = k
-      | ResMod _ _ _ s _ _ _ => s = k
+      | ResMod _ _ _ s _ _ _ _ => s = k
       | _ => True
       end) 0 0 conns Ts.
 Proof. exact m_session. Qed.
@@ -77,7 +77,7 @@ Theorem C02_no_context_after_exchange : forall conns Ts n,
     forall e, In e T ->
       match e with
       | ReqMod r _ _ L => L = [r]
-      | ResMod r _ _ _ _ _ L => L = [r]
+      | ResMod r _ _ _ _ _ _ L => L = [r]
       | _ => True
       end) 0 0 conns Ts
   /\ n = 0.
@@ -87,7 +87,9 @@ Print Assumptions C02_no_context_after_exchange.
 (* a modifier error only adds a Warning: unless a modifier hijacks, the
    exchange is answered exactly once, with the status the response modifier
    saw and its warnings plus one iff the response modifier failed; what goes
-   upstream carries one warning iff the request modifier failed. *)
+   upstream (a plain request, or a CONNECT forwarded to a downstream proxy)
+   and the request the response modifier finds in res.Request carry one
+   warning iff the request modifier failed - in every mode. *)
 Theorem C02_error_is_warning_and_continues : forall conns Ts n,
   model_obs fixed conns = Some (Ts, n) ->
   all_conns (fun k b reqs T =>
@@ -97,6 +99,7 @@ Theorem C02_error_is_warning_and_continues : forall conns Ts n,
       ((forall r st w cl m, In (Write r st w cl m) E ->
           exists st' w', find_resmod E = Some (st', w') /\ st = st' /\ w = w' + b2n (is_serr q) /\ m = 1) /\
        (forall r sm w m, In (Upstream r sm w m) E -> w = b2n (is_qerr q)) /\
+       (forall r sm c s st w qw L, In (ResMod r sm c s st w qw L) E -> qw = b2n (is_qerr q)) /\
        count is_write E = (if is_qhijack q || is_shijack q then 0 else 1)))
     0 0 conns Ts.
 Proof. exact m_error. Qed.
@@ -202,13 +205,13 @@ Example C02_example :
      [mkReq ConnectMitm false false false RtOk false true false; mkReq Plain false false false RtClone false false false;
       mkReq Plain false false false RtNil true true false; mkReq Plain false false false RtOk false false false]]
   = Some
-    ([[ReqMod 0 0 0 [0]; Upstream 0 true 1 1; ResMod 0 true 0 0 203 0 [0]; Write 0 203 1 false 1;
-       ReqMod 1 1 0 [1]; ResMod 1 true 1 0 200 0 [1]; Write 1 200 0 false 1;
-       ReqMod 2 2 0 [2]; Upstream 2 true 0 1; ResMod 2 true 2 0 502 1 [2]; Write 2 502 1 true 1;
+    ([[ReqMod 0 0 0 [0]; Upstream 0 true 1 1; ResMod 0 true 0 0 203 0 1 [0]; Write 0 203 1 false 1;
+       ReqMod 1 1 0 [1]; ResMod 1 true 1 0 200 0 1 [1]; Write 1 200 0 false 1;
+       ReqMod 2 2 0 [2]; Upstream 2 true 0 1; ResMod 2 true 2 0 502 1 0 [2]; Write 2 502 1 true 1;
        SockClose];
-      [ReqMod 4 3 1 [4]; ResMod 4 true 3 1 200 0 [4]; Write 4 200 1 false 1;
-       ReqMod 5 4 1 [5]; Upstream 5 true 0 1; ResMod 5 true 4 1 203 0 [5]; Write 5 203 0 false 1;
-       ReqMod 6 5 1 [6]; Upstream 6 true 0 1; ResMod 6 true 5 1 203 0 [6]; HijackRet 6;
+      [ReqMod 4 3 1 [4]; ResMod 4 true 3 1 200 0 0 [4]; Write 4 200 1 false 1;
+       ReqMod 5 4 1 [5]; Upstream 5 true 0 1; ResMod 5 true 4 1 203 0 0 [5]; Write 5 203 0 false 1;
+       ReqMod 6 5 1 [6]; Upstream 6 true 0 1; ResMod 6 true 5 1 203 0 0 [6]; HijackRet 6;
        SockClose]], 0).
 Proof. vm_compute. reflexivity. Qed.
 
